@@ -182,11 +182,34 @@ func renderD(v *val.Val, d int) string {
 
 type recorder struct {
 	calls []string
+	// hook: an injected re-entrant interference. While an evaluation is inside the
+	// tracing function the harness (playing the host program) may invoke the library
+	// again — "interleaving it with other invocations" from within a host function.
+	hook  func()
+	depth int
 }
 
 func (r *recorder) add(s string) {
+	if r.depth > 0 {
+		return // calls made by a nested, interfering invocation are not part of the trace
+	}
 	if len(r.calls) < 4096 {
 		r.calls = append(r.calls, s)
+	}
+}
+
+func (r *recorder) interfere() {
+	if r.hook != nil && r.depth == 0 {
+		r.depth++
+		func() {
+			defer func() {
+				r.depth--
+				if p := recover(); p != nil && simrt.IsAbort(p) {
+					panic(p)
+				}
+			}()
+			r.hook()
+		}()
 	}
 }
 func (r *recorder) take() []string {
@@ -267,7 +290,9 @@ func registerUserFuns(e *yae.Expr, rec recFn) {
 	a := types.TyVar("a")
 	// tr :: forall a. a -> a   (strict, records its argument)
 	e.RegisterFun(val.Fun(types.Fun("tr", []*types.Type{a}, a), func(args ...*val.Val) *val.Val {
-		rec().add("tr(" + render(args[0]) + ")")
+		r := rec()
+		r.add("tr(" + render(args[0]) + ")")
+		r.interfere()
 		return args[0]
 	}))
 	// inc :: num -> num
